@@ -174,3 +174,88 @@ def project_ring(buf, profile):
     if len(buf) != buf.current_len:
         raise Mismatch("len() differs from current_len")
     return store, int(buf.insert_idx), int(buf.current_len)
+
+
+# ------------------------------------------------------------------ subtrajectory buffers
+def st_values(ep, t, end):
+    """add_sample arguments for step t of episode ep (D1 tags)."""
+    return dict(
+        observation=np.array([ep, t], dtype=float),
+        action=float(64 * ep + t),
+        reward=float(1000 + 64 * ep + t),
+        next_observation=np.array([ep, t + 1], dtype=float),
+        terminated=int(end == "term"),
+        truncated=int(end == "trunc"),
+    )
+
+
+def st_expected_fields(row):
+    """Field values a model row [kind, ep, t, term, trunc] stands for."""
+    ep, t = row["ep"], row["t"]
+    if row["kind"] == "step":
+        return dict(observation=[ep, t], action=64 * ep + t, reward=1000 + 64 * ep + t, next_observation=[ep, t + 1],
+                    terminated=int(row["term"]), truncated=int(row["trunc"]))
+    if row["kind"] == "extra":
+        return dict(observation=[ep, t], action=64 * ep + t - 1, reward=0, next_observation=[ep, t],
+                    terminated=int(row["term"]), truncated=int(row["trunc"]))
+    raise Mismatch("model row is an unwritten slot")
+
+
+def st_decode(fields):
+    """One stored / sampled row -> model record, or Mismatch if the fields do not belong together."""
+    o = [float(x) for x in np.asarray(fields["observation"]).reshape(-1)]
+    n = [float(x) for x in np.asarray(fields["next_observation"]).reshape(-1)]
+    a, r = float(fields["action"]), float(fields["reward"])
+    te, tr = int(fields["terminated"]), int(fields["truncated"])
+    for v in o + n + [a, r]:
+        if not np.isfinite(v) or abs(v) > 1e7 or v != int(v):
+            raise Mismatch(f"row holds {v!r}: not a stored transition (unwritten slot?)")
+    ep, t = int(o[0]), int(o[1])
+    if r == 0 and o == n:
+        if a != 64 * ep + t - 1:
+            raise Mismatch(f"successor row of episode {ep} carries a foreign action {a}")
+        return {"kind": "extra", "ep": ep, "t": t, "term": bool(te), "trunc": bool(tr)}
+    if n != [ep, t + 1] or a != 64 * ep + t or r != 1000 + 64 * ep + t:
+        raise Mismatch(f"row mixes fields of different transitions: obs={o} next={n} action={a} reward={r}")
+    return {"kind": "step", "ep": ep, "t": t, "term": bool(te), "trunc": bool(tr)}
+
+
+NONE_ROW = {"kind": "none", "ep": 0, "t": 0, "term": False, "trunc": False}
+
+
+def project_subtraj(buf, prio=False):
+    n = buf.buffer_size
+    slots = []
+    for i in range(n):
+        if i < buf.current_len:
+            slots.append(st_decode({k: buf.buffer[k][i] for k in buf.buffer}))
+        else:
+            slots.append(dict(NONE_ROW))
+    v = {
+        "slots": slots,
+        "mask": [int(x) for x in buf.mask_],
+        "ins": int(buf.insert_idx),
+        "len": int(buf.current_len),
+        "epT": int(buf.episode_timesteps),
+        "envTerm": bool(buf.environment_terminates),
+        "prio": [0] * n,
+        "maxPrio": 1,
+        "sampled": [],
+    }
+    if len(buf) != buf.current_len:
+        raise Mismatch("len() differs from current_len")
+    if prio:
+        pr = []
+        for i in range(n):
+            if i < buf.current_len:
+                x = float(buf.priority.priority[i])
+                if x != int(x):
+                    raise Mismatch(f"priority {x} of slot {i} is not one of the supplied values")
+                pr.append(int(x))
+            else:
+                pr.append(0)
+        v["prio"] = pr
+        mp = float(buf.priority.max_priority)
+        v["maxPrio"] = int(mp) if mp == int(mp) else mp
+        v["sampled"] = [int(x) for x in np.asarray(buf.priority.sampled_indices).reshape(-1)]
+    return v
